@@ -231,6 +231,10 @@ def run_case(kind, p):
     pattern = impl.pattern_from(p["pattern"])
     c = pattern.get_crop_size()
     frame = impl.noise_frame(rng, tuple(p["shape"]), p["frame_kind"])
+    if p.get("pedestal"):
+        # "any frame": a large constant level under the same signal (float32 frames, e.g. summed or offset detector data); the
+        # definition log(x - min + 1) does not depend on it
+        frame = (frame + np.float32(p["pedestal"])).astype(np.float32)
     peaks = np.asarray(p["peaks"], dtype=np.int64)
     msgs = []
     for pipeline in p["pipelines"]:
@@ -256,7 +260,9 @@ def gen_case(rng, k):
     peaks[0] = (int(rng.integers(c, shape[0] - c + 1)), int(rng.integers(c, shape[1] - c + 1)))
     return {"seed": int(rng.integers(1 << 30)), "pattern": pat, "shape": shape,
             "frame_kind": ("poisson", "gauss", "disks", "hot")[k % 4], "peaks": peaks.tolist(),
-            "b": int(rng.integers(1, n + 2)), "pipelines": ["fast", "full"]}
+            "b": int(rng.integers(1, n + 2)), "pipelines": ["fast", "full"],
+            "pedestal": (0.0, 0.0, 2.0 ** 24 + 2, 0.0, -3e9, 2.0 ** 25, 1e6, float(2 ** int(rng.integers(24, 31))))[(k // 4) % 8]
+            if k % 4 != 3 else 0.0}
 
 
 def search(ctx, boost=1, focus=()):
